@@ -20,10 +20,13 @@ func c01Paths(r *rng, t *tree, n int) []string {
 		"/a/../../games-other/secret", "/./../games-other", "//..//games-other//secret", "/..\x00/secret", "/\x00", "\x00",
 		"/../games", "/../games/", "/../games/../games-other/secret", "games-other/secret", "/games-other/secret", "",
 		"/", ".", "/.", "./", "//", "/./.", "/../games-other", "../games-other", "/../games-other/", "/../games-other/new",
-		"/../newfile", "/../games-other/newdir", "/" + strings.Repeat("../", 40) + "tmp", "/" + strings.Repeat("a/", 300),
+		"/../newfile", "/../games-other/newdir",
+		"/***DVD***/../games-other", "/***DVD***../games-other", "/***PS3***/../games-other", "/***PS3***../games-other", "/***DVD***/..",
+		"/***DVD***/../../games-other/secret", "***DVD***/../games-other", "/***DVD***/", "/***DVD***", "/***DVD***//../games-other/",
+		"/***DVD***/a/../../../games-other", "/***PS3***/", "/***DVD***/.", "/x/../***DVD***/../games-other", "/" + strings.Repeat("../", 40) + "tmp", "/" + strings.Repeat("a/", 300),
 		"/" + strings.Repeat("x", 255), "/" + strings.Repeat("x", 256), "/" + strings.Repeat("y", 65000),
 	}
-	comps := []string{"..", ".", "", "games-other", "secret", "games", "\x00", strings.Repeat("n", 255), "new", "a", "b"}
+	comps := []string{"..", ".", "", "games-other", "secret", "games", "\x00", strings.Repeat("n", 255), "new", "a", "b", "***DVD***", "***PS3***", "***DVD***..", "..***DVD***"}
 	for _, nd := range t.nodes {
 		if nd.path != "/" {
 			comps = append(comps, filepath.Base(nd.path))
